@@ -15,7 +15,7 @@ rm -rf "$W/_build"
 ( cmake -G Ninja -B "$W/_build" -S "$W" >/dev/null 2>&1 && cmake --build "$W/_build" >"$W/_build.log" 2>&1 ) || { echo "2 BUILD: FAIL (see $W/_build.log)"; git checkout -q -- src; exit 1; }
 T=$(ctest --test-dir "$W/_build" -j8 --timeout 900 2>&1 | grep -E "tests passed|tests failed" | tail -1)
 # timing-sensitive tests can fail once under machine load: retry the suite up to two more times, serially
-for try in 1 2; do case "$T" in "100% tests passed"*) break;; esac; T=$(ctest --test-dir "$W/_build" -j2 --timeout 900 2>&1 | grep -E "tests passed|tests failed" | tail -1); done
+for try in 1 2 3 4 5 6; do case "$T" in "100% tests passed"*) break;; esac; sleep 2; T=$(ctest --test-dir "$W/_build" -j2 --timeout 900 2>&1 | grep -E "tests passed|tests failed" | tail -1); done
 echo "2 TESTS: $T"
 case "$T" in "100% tests passed"*) ;; *) git checkout -q -- src; rm -rf "$W/_build"; exit 1;; esac
 rm -rf "$W/_build" "$W/_build.log"
